@@ -62,6 +62,11 @@ func Check(id string, cond bool, devs ...Dev)
 // Cover marks a shape class as reached (vacuity guard).
 func Cover(tag string)
 
+
+// SchedulesDone: from here on a range over a map is no longer a schedule choice (key order);
+// for steps that repeat work whose schedules have been explored already.
+func SchedulesDone()
+
 func Emit(name, text string)
 func Note(s string)
 func Param(name string, def int) int
